@@ -481,6 +481,8 @@ int main(int argc, char** argv) {
     }
     else if (!strcmp(c, "savefile")) {
       int r = AI(1), b = AI(2), rc; char path[600]; snprintf(path, sizeof path, "%s/yvw_rules_%d.yarc", tmpdir, (int) getpid());
+      long pre = kvl("pre", -1);   /* pre=N: the destination already exists and holds N bytes */
+      if (pre >= 0) { FILE* pf = fopen(path, "wb"); if (pf) { for (long i = 0; i < pre; i++) fputc(0xAB, pf); fclose(pf); } }
       API(rc = yr_rules_save(R[r], path));
       FILE* f = fopen(path, "rb"); uint8_t* p = NULL; size_t n = 0;
       if (f) { fseek(f, 0, SEEK_END); n = (size_t) ftell(f); fseek(f, 0, SEEK_SET); p = (uint8_t*) malloc(n + 1); if (fread(p, 1, n, f) != n) n = 0; fclose(f); unlink(path); }
